@@ -34,7 +34,7 @@ MIN_EVALUATIONS = {"quick": 100, "thorough": 3000}
 
 
 def plan(tier, seed):
-    n = 8 if tier == "quick" else 200
+    n = 40 if tier == "quick" else 300
     return [dict(seed=seed, shard=i, n=n) for i in range(16)]
 
 
